@@ -99,6 +99,8 @@ def run(ctx):
     r15_constructor_forwards(ctx)
     r16_source_adds_no_dialect(ctx)
     r17_readers_stateless(ctx)
+    ctx.rule("C14.R18", "'its context is exactly the example's features without the label', also by name: the header map a labelled row's feats show is computed from the wrapped positions (C13.R12)")
+    c13.header_renumbering(ctx, "C14.R18")
 
 
 def _final_loops(fn):
@@ -453,6 +455,7 @@ def r9_label_key_domain(ctx):
 
 
 CONTROLS = [
+    ("DropOne numbers the kept names in the order the map lists them", ROWS, M.replace_stmt("DropOne.headers", lambda st: isinstance(st, ast.Return), "return dict(zip((h for h, i in self._row.headers.items() if i != ind), count()))"), "C14.R18"),
     ("CsvSource adds a dialect default of its own", SUP, M.insert_before("CsvSource.__init__", M.text_has("reader = CsvReader"), "dialect.setdefault('skipinitialspace', True)"), "C14.R16"),
     ("CsvReader remembers the header of its first read", RDR, M.insert_before("CsvReader.filter", lambda st: isinstance(st, ast.If), "self._head_rows = first"), "C14.R17"),
     ("CsvReader drops blanks behind delimiters by default", RDR, M.replace_stmt("CsvReader.__init__", M.text_has("self._dialect ="), "self._dialect = {'skipinitialspace': True, **dialect}"), "C14.R14"),
